@@ -32,7 +32,7 @@ OBLIGATIONS = {"poly:star": 20, "poly:selfintersecting": 20, "poly:lattice": 20,
                "cells_inside_polygon": 10, "inside-buffer": 50, "options": 50,
                "poly:far-from-origin": 20, "poly:far-open>3": 10,
                "cells:grid-moved-after-use": 20, "cells:polygon-at-one-end": 3, "cells:polygon-within-one-row-or-column": 10,
-               "cells:big-grid": 4, "poly:finely-digitised": 6, "poly:near-rectangle": 20}
+               "cells:big-grid": 4, "poly:finely-digitised": 6, "poly:thousands-of-vertices-points-level-with-vertices": 6, "poly:near-rectangle": 20}
 
 
 def P():
@@ -512,11 +512,20 @@ def run_big_grid(ctx):
     the very end of the numbering; expected cells from the exact oracle on the cells of
     the polygon's bounding box (every other centre is outside)"""
     from hydrodiy.gis.grid import Grid
-    shape = np.array([[0.2, 0.1], [6.3, 0.4], [6.1, 4.2], [3.1, 1.7], [0.4, 4.4]])
-    for (nr, nc) in ((1000, 1250), (1025, 1025)):
+    def star(n_, k_, flip=False):
+        a_ = np.pi / 2 + 2 * np.pi * k_ * np.arange(n_) / n_ * (-1 if flip else 1)
+        return np.column_stack([3.3 + 2.9 * np.cos(a_), 2.7 + 2.45 * np.sin(a_)])
+    # a non-convex pentagon, convex outlines, and outlines that turn the same way at every
+    # vertex while crossing themselves (pentagram, {7/3} star: their core is *outside*
+    # under the even-odd rule)
+    shapes = [np.array([[0.2, 0.1], [6.3, 0.4], [6.1, 4.2], [3.1, 1.7], [0.4, 4.4]]),
+              star(5, 2), star(7, 3), star(6, 1), star(5, 2, True), star(3, 1), star(9, 4)]
+    for gi, (nr, nc) in enumerate(((1000, 1250), (1025, 1025))):
         gr = Grid("big", nc, nr, cellsize=1.0, xllcorner=0.0, yllcorner=0.0)
         marks = [0, 10 ** 6, 2 ** 20, nr * nc - 1 - 7 * nc]
-        for mk in marks:
+        for mk, shape in [(mk_, sh_) for mi, mk_ in enumerate(marks)
+                          for si, sh_ in enumerate(shapes)
+                          if si == 0 or (si + mi + gi) % 2 == 0]:
             if mk >= nr * nc:
                 continue
             r0, k0 = divmod(mk, nc)
@@ -544,7 +553,50 @@ def run_big_grid(ctx):
             ctx.nontrivial("big", nr, nc, mk)
 
 
+def run_level_case(ctx, case):
+    """outlines of a few thousand vertices (round and power-of-two counts) queried with
+    points exactly level with their vertices - every 16th vertex and a random sample -
+    inside and outside, for three starting vertices and both orientations"""
+    gu = P()
+    nv, shape = int(case["nv"]), case["shape"]
+    rng = np.random.default_rng(int(case["seed"]))
+    ang = 2 * np.pi * (np.arange(nv) + 0.25) / nv
+    rad = 10.0 if shape == "circle" else 10.0 + 2.0 * np.sin(7 * ang)
+    base = np.column_stack([rad * np.cos(ang), rad * np.sin(ang)])
+    ks = np.unique(np.concatenate([np.arange(0, nv, 16), rng.integers(0, nv, 150)]))
+    ys = base[ks, 1]
+    pts = np.concatenate([np.column_stack([0.3 * base[ks, 0], ys]),
+                          np.column_stack([-0.55 * base[ks, 0], ys]),
+                          np.column_stack([1.6 * base[ks, 0], ys])])
+    d = dist_to_edges_vec(base, pts)
+    judged = d > 1e-5 * 20.0
+    exp = parity_float(base, pts)
+    ctx.evaluated(int(judged.sum()))
+    ctx.tag("poly:thousands-of-vertices-points-level-with-vertices")
+    for start in (0, int(rng.integers(1, nv)), 511 % nv):
+        for rev in (False, True):
+            poly = np.roll(base, -start, axis=0)
+            if rev:
+                poly = poly[::-1].copy()
+            ctx.api("points_inside_polygon")
+            got = np.asarray(gu.points_inside_polygon(pts.copy(), np.ascontiguousarray(poly))
+                             ).astype(bool)
+            diff = np.where(judged & (got != exp))[0]
+            ctx.check("inside.level-with-vertices", len(diff) == 0,
+                      "points_inside_polygon|even-odd|thousands-of-vertices", case,
+                      lambda: {"n_wrong": int(len(diff)), "point": pts[diff[0]].tolist(),
+                               "reported": bool(got[diff[0]]), "expected": bool(exp[diff[0]]),
+                               "start_vertex": start, "reversed": rev})
+    ctx.nontrivial("level", nv, shape)
+
+
 def run(ctx):
+    lv = [(2048, "circle"), (4096, "circle"), (2047, "star"), (3000, "star"), (5000, "circle"),
+          (1024, "star"), (8192, "star"), (2049, "circle")]
+    for j, (nv_, shp_) in enumerate(lv):
+        if j % ctx.nshards == (ctx.shard + 5) % ctx.nshards or ctx.nshards <= 1:
+            run_level_case(ctx, {"kind": "level", "nv": nv_, "shape": shp_,
+                                 "seed": ctx.seed + j})
     if ctx.shard == 1 % ctx.nshards:
         run_big_grid(ctx)
     ms = smooth_sizes(100000, 2400000 if ctx.tier == "quick" else 9000000)
@@ -630,6 +682,8 @@ def replay(ctx, case):
         return run_big_grid(ctx)
     if case["kind"] == "digitised":
         return run_digitised_case(ctx, case)
+    if case.get("kind") == "level":
+        return run_level_case(ctx, case)
     if case["kind"] == "manypoints":
         return run_many_points(ctx, [int(case["n"])])
     if case["kind"] == "pip":
